@@ -106,7 +106,8 @@ class _Return(Exception):
 class Interp:
     """Interprets methods of class _Simu for one concrete algorithm."""
 
-    INLINE_METHODS = {"__Solver_Get_Hyperbolic_Params", "__Solver_Get_Parabolic_Params"}
+    INLINE_METHODS = {"__Solver_Get_Hyperbolic_Params", "__Solver_Get_Parabolic_Params",
+                      "_Solver_Get_K_C_M_coefs_for_time_scheme"}
     INLINE_PROPS = {"algo", "isNonLinear"}
     GETTERS = {"_Get_u_n": "u_n", "_Get_v_n": "v_n", "_Get_a_n": "a_n"}
 
@@ -195,7 +196,14 @@ class Interp:
             self.block(st.body if c else st.orelse, env)
             return
         if isinstance(st, ast.Assign):
-            val = self.eval(st.value, env)
+            try:
+                val = self.eval(st.value, env)
+            except TranslateError as ex:
+                # deferred: the names become untracked; using them in a tracked computation fails then
+                if all(isinstance(tg, ast.Name) for tg in st.targets):
+                    val = Opaque("unreadable right-hand side (%s)" % str(ex)[-120:])
+                else:
+                    raise
             for tg in st.targets:
                 self.assign(tg, val, env)
             return
@@ -264,7 +272,7 @@ class Interp:
                 return env[n.id]
             if n.id == "AlgoType":
                 return Marker("AlgoType")
-            if n.id in ("np", "sparse", "Tic", "Terminal", "MPI_RANK"):
+            if n.id in ("np", "sparse", "sla", "Tic", "Terminal", "MPI_RANK", "ResolType"):
                 return Marker("module:" + n.id)
             self.err(n, "unbound name %s" % n.id)
         if isinstance(n, ast.Tuple):
@@ -352,6 +360,13 @@ class Interp:
                     return self.call(f.attr, {})
                 if f.attr == "Get_K_C_M_F":
                     return (atom("K"), atom("C"), atom("M"), atom("F"))
+                if f.attr == "__Solver_Get_Dirichlet_A_x":
+                    # resizes/marks known dofs (property C04); returns the matrix it is given (first of the pair)
+                    fn = self.methods.get(f.attr)
+                    names = [a.arg for a in fn.args.args][1:] if fn is not None else []
+                    if "A" not in names or names.index("A") >= len(n.args):
+                        self.err(n, "cannot locate the matrix argument of __Solver_Get_Dirichlet_A_x")
+                    return (self.eval(n.args[names.index("A")], env), Opaque("x"))
                 if f.attr == "Bc_values_Neumann":
                     return Marker("neumann_values")
                 if f.attr == "Bc_dofs_Neumann":
@@ -372,6 +387,10 @@ class Interp:
                             return atom("bN")
                 return Opaque("sparse.csr_matrix(...)")
             if isinstance(base, Sym):
+                if f.attr == "dot" and len(n.args) == 1 and not n.keywords:
+                    return self.binop(ast.MatMult(), base, self.eval(n.args[0], env), n)
+                if f.attr == "copy" and not n.args and not n.keywords:
+                    return base
                 self.err(n, "method call on a tracked value: %s" % ast.unparse(n)[:60])
             return Opaque("call " + ast.unparse(f)[:40])
         if isinstance(f, ast.Name):
@@ -580,7 +599,7 @@ def read_schemes(repo):
         out[algo] = _one(meths, members, lists, algo)
     lines = {}
     for f in ("_Solver_Evaluate_u_v_a_for_time_scheme", "_Solver_Get_K_C_M_coefs_for_time_scheme",
-              "_Solver_Apply_Neumann", "_Solver_Update_solutions", "Solver_Set_Hyperbolic_Algorithm",
+              "_Solver_Apply_Neumann", "_Solver_Apply_Dirichlet", "_Solver_Update_solutions", "Solver_Set_Hyperbolic_Algorithm",
               "Solver_Set_Parabolic_Algorithm"):
         lines[f] = meths[f].lineno
     return {"algos": list(ALGOS), "schemes": out, "members": members, "docs": docs, "lines": lines}
@@ -650,6 +669,11 @@ def _one(meths, members, lists, algo, nonlinear=False):
         res["rhs_newton"] = _vec(ipn, bn, "b (Newton path)")
     else:
         res["rhs_newton"] = None
+    # 4b. the system operator built in _Solver_Apply_Dirichlet
+    Ax = ip.call("_Solver_Apply_Dirichlet", {})
+    if not (isinstance(Ax, tuple) and len(Ax) == 2 and isinstance(Ax[0], Sym) and Ax[0].t == O):
+        raise TranslateError("%s [algo=%s]: _Solver_Apply_Dirichlet does not return (operator, x)" % (SIMU, algo))
+    res["sysop"] = Ax[0].e
     # 5. corrector
     up = ip.call("_Solver_Update_solutions", {"u_np1": atom("x")})
     if not (isinstance(up, tuple) and len(up) == 3):
@@ -835,6 +859,7 @@ def emit_coq(T):
             dfn("%s_ev_%s" % (a, nm), "I -> R", "vzero" if t is None else coq(t))
         for nm, t in zip(("coefK", "coefC", "coefM"), r["coefs"]):
             dfn("%s_%s" % (a, nm), "R", coq(t))
+        dfn(a + "_sysop", "(I -> R) -> (I -> R)", coq(r["sysop"]))
         dfn(a + "_rhs", "I -> R", coq(r["rhs"]))
         if r["rhs_newton"] is not None:
             dfn(a + "_rhs_newton", "I -> R", coq(r["rhs_newton"]))
@@ -856,6 +881,7 @@ if __name__ == "__main__":
         print("  asserts", [coq_prop(p) for p in r["asserts"]])
         print("  ev", [show(t) for t in r["ev"]])
         print("  coefs", [show(t) for t in r["coefs"]])
+        print("  sysop", show(r["sysop"]))
         print("  rhs", show(r["rhs"]))
         print("  rhs_newton", show(r["rhs_newton"]))
         print("  up", [show(t) for t in r["up"]])
